@@ -333,7 +333,7 @@ SPEC = r"""
         (expr.0 is BinaryOp) ==> ev(context.builtins.type_functions, old(scopes).world(), *expr, r, final(scopes).world()), // [C16_C17_C18:binary_operation_evaluates_lhs_then_rhs_once_and_applies_the_operator_at_its_own_position_to_them_in_order]
         (expr.0 is Index) ==> ev(context.builtins.type_functions, old(scopes).world(), *expr, r, final(scopes).world()), // [C11_C12_C14_C15:element_and_property_reads_attach_the_object_read_from_as_this_and_are_defined_exactly_inside_the_sequence_or_for_present_keys_and_are_errors_otherwise]
         (expr.0 is Prop) ==> ev(context.builtins.type_functions, old(scopes).world(), *expr, r, final(scopes).world()), // [C12_C14:dot_name_attaches_the_object_read_from_as_this_and_reads_the_same_property_as_index_by_that_string_and_type_functions_are_defined_for_every_value_but_null]
-        (expr.0 is Object) ==> ev(context.builtins.type_functions, old(scopes).world(), *expr, r, final(scopes).world()), // [C12_C17:object_literal_entries_are_evaluated_in_source_order_with_shorthand_spread_string_names_and_later_entries_winning]
+        (expr.0 is Object) ==> ev(context.builtins.type_functions, old(scopes).world(), *expr, r, final(scopes).world()), // [C12_C13_C17:object_literal_entries_are_evaluated_in_source_order_with_shorthand_spread_string_names_and_later_entries_winning]
         (expr.0 is Range) ==> ev(context.builtins.type_functions, old(scopes).world(), *expr, r, final(scopes).world()), // [C06:range_is_exactly_the_ascending_integers_from_start_up_to_but_excluding_end]
         (expr.0 is RangeIndex) ==> ev(context.builtins.type_functions, old(scopes).world(), *expr, r, final(scopes).world()), // [C11_C17:range_read_evaluates_bounds_then_the_sequence_and_delegates_to_the_range_read_contract]
         (expr.0 is List || expr.0 is Call || expr.0 is Func) ==> ev(context.builtins.type_functions, old(scopes).world(), *expr, r, final(scopes).world()), // [C14:list_literals_calls_and_function_values_delegate_to_their_contracts_and_closures_capture_the_current_chain]
